@@ -675,6 +675,13 @@ func NewBatch(prop, tier string, seed uint64) *Batch {
 				}
 			}
 			c.WSign, c.WJump, c.WRefused, c.WCrash = r.Range(2, 8), r.Range(1, 6), 0, r.Range(1, 4)
+			if r.Chance(0.5) {
+				// refused calls (rewind, too high) the caller recovers from, then
+				// keeps using the object: the twin and every later rebuild never
+				// saw them, so a refusal that moved hidden state shows as a
+				// continuation mismatch
+				c.WRefused = r.Range(1, 3)
+			}
 			c.NearEnd = r.Chance(0.15)
 			return genHistory(r, c)
 		}
